@@ -6,6 +6,7 @@ here = os.path.dirname(os.path.abspath(__file__))
 sys.path.insert(0, here)
 import core
 pins = {}
+fpins = {}
 for fn in sorted(os.listdir(here)):
     if len(fn) == 6 and fn.startswith("c") and fn.endswith(".py") and fn[1:3].isdigit():
         try:
@@ -16,5 +17,12 @@ for fn in sorted(os.listdir(here)):
         h = core.anchors_hash(mod)
         if h:
             pins[mod.ID] = h
+        fh = core.modelled_hashes(mod)
+        if fh:
+            missing = [k for k, v in fh.items() if v == "<missing>"]
+            if missing:
+                print("WARNING", mod.ID, "MODELLED names not found in the source:", missing)
+            fpins[mod.ID] = fh
+pins["functions"] = fpins
 json.dump(pins, open(os.path.join(here, "pins.json"), "w"), indent=1, sort_keys=True)
-print(pins)
+print({k: v for k, v in pins.items() if k != 'functions'}); print({k: len(v) for k, v in fpins.items()})
